@@ -214,7 +214,7 @@ impl Expr {
     /// The name of the variable an index / field path is rooted at, if that variable is const.
     fn root_ident_if_const(&self) -> Option<&str> {
         match self {
-            Expr::Value(Value::Ident(ident)) if ident.is_const() => Some(ident.name()),
+            Expr::Value(Value::Ident(ident)) if ident.is_write_protected() => Some(ident.name()),
             Expr::Index { lhs_raw, .. } => lhs_raw.root_ident_if_const(),
             Expr::DotLookup { lhs, .. } => lhs.root_ident_if_const(),
             // `(get c).n += 1` and `(c or d).n += 1` write through c as well
@@ -223,7 +223,7 @@ impl Expr {
                 primary
                     .root_ident_if_const()
                     .or_else(|| match fallback {
-                        Value::Ident(ident) if ident.is_const() => Some(ident.name()),
+                        Value::Ident(ident) if ident.is_write_protected() => Some(ident.name()),
                         Value::MathExpr(inner) => inner.root_ident_if_const(),
                         _ => None,
                     })
